@@ -29,7 +29,7 @@ func init() {
 				"reported as information.",
 			NotCovered: "that (*dns.Msg).Unpack is a function of its argument only (trusted); semantics of the " +
 				"third-party DNSCrypt and HTTP libraries' own buffers.",
-			Rules: map[string]string{"C06-R14": "pooled per-request state is fully re-initialised before use (ecscache cacheRequest; shared with C07-R1)", "C06-R13": "hashprefix.setInCache stores clones: the message handed to the first requester is disposed of after the write and must not be the cached one (shared with C07-R4)", "C06-R11": "ecscache.writeUpstreamResponse stores the answer before it adds this requester's client-subnet option (shared with C07-R4)", "C06-R12": "request-path code does not write into record templates shared by all requests of a server group (shared with C07-R6)", "C06-R10": "the simple cache keeps its own copy of a response; the written message goes back to the pools and is overwritten by later answers (shared with C07-R4)", "C06-R9": "a pooled buffer that is held in a field of an object outliving the call is returned by test-and-clear (one Put per object, however often the function runs for it)", "C06-R8": "cached answers are re-initialised from the current request (shared with C12-R11)", "C06-RC": "class rules (error chains, shadowed results, character classes, crossed arguments, pool constructors, array pools, loop completeness, loop-carried buffers, replacing setters, complete clones, Grow arithmetic, pooled-buffer escape, sorted searches, fresh decode targets, per-iteration objects, whole-message copies, codec guards) over the packages this property rests on", "C06-R7": "deep-copy discipline of the record constructors and the cloner (shared with C07-R5)", "C06-R6": "pooled per-request objects (filtering context, request info) are fully re-initialised when taken from the pool", "C06-R5": "a response goes back to the message pools only from writers after which nothing reads it (dispose gates, shared with C07-R3)",
+			Rules: map[string]string{"C06-R15": "packWithPrefix returns the bytes that PackBuffer returned: every returned slice got the packed message copied in behind the two-byte prefix (PackBuffer may allocate a new array although the result would have fitted, so the caller's buffer is not the message)", "C06-R16": "the plain-DNS server keeps separate pools for UDP and TCP request buffers (the TCP path shrinks pooled slices to the message length, the UDP path reads into the slice as it is)", "C06-R14": "pooled per-request state is fully re-initialised before use (ecscache cacheRequest; shared with C07-R1)", "C06-R13": "hashprefix.setInCache stores clones: the message handed to the first requester is disposed of after the write and must not be the cached one (shared with C07-R4)", "C06-R11": "ecscache.writeUpstreamResponse stores the answer before it adds this requester's client-subnet option (shared with C07-R4)", "C06-R12": "request-path code does not write into record templates shared by all requests of a server group (shared with C07-R6)", "C06-R10": "the simple cache keeps its own copy of a response; the written message goes back to the pools and is overwritten by later answers (shared with C07-R4)", "C06-R9": "a pooled buffer that is held in a field of an object outliving the call is returned by test-and-clear (one Put per object, however often the function runs for it)", "C06-R8": "cached answers are re-initialised from the current request (shared with C12-R11)", "C06-RC": "class rules (error chains, shadowed results, character classes, crossed arguments, pool constructors, array pools, loop completeness, loop-carried buffers, replacing setters, complete clones, Grow arithmetic, pooled-buffer escape, sorted searches, fresh decode targets, per-iteration objects, whole-message copies, codec guards) over the packages this property rests on", "C06-R7": "deep-copy discipline of the record constructors and the cloner (shared with C07-R5)", "C06-R6": "pooled per-request objects (filtering context, request info) are fully re-initialised when taken from the pool", "C06-R5": "a response goes back to the message pools only from writers after which nothing reads it (dispose gates, shared with C07-R3)",
 				"C06-R1": "length provenance of every (*dns.Msg).Unpack argument: Bounded | FullyRead | Fresh on all paths",
 				"C06-R3": "buffer-pool wiring: a pool field of a reader / writer is set from the server's pool field of the same name (request buffers and response buffers never share a pool)",
 				"C06-R2": "no use of a pooled receive buffer after Pool.Put on any path; Put after hand-over to a worker only inside the worker",
@@ -591,6 +591,11 @@ func (a *c06) callResult(c *ssa.Call, i int, out *[]c06leaf) {
 }
 
 func runC06(c *an.Ctx) {
+	// ---- R15: the prefixed message is the packed one; R16: one pool per network
+	c.Floor("C06-R15", 1)
+	c06PrefixedIsPacked(c, "C06-R15")
+	c.Floor("C06-R16", 1)
+	c06SeparatePools(c, "C06-R16")
 	// ---- R14: pooled request state of the ECS cache is fully re-initialised (shared with C07-R1)
 	c.Floor("C06-R14", 1)
 	c.Borrow("C06-R14", runC07, func(o an.Obligation) bool { return o.Rule == "C07-R1" && strings.Contains(o.Key, "ecscache.") })
@@ -602,7 +607,9 @@ func runC06(c *an.Ctx) {
 	// copy holds nobody's option (shared with C07-R4); R12: shared record templates are copied before they are
 	// filled in for one request (shared with C07-R6)
 	c.Floor("C06-R11", 1)
-	c.Borrow("C06-R11", runC07, func(o an.Obligation) bool { return o.Rule == "C07-R4" && strings.Contains(o.Key, "writeUpstreamResponse") })
+	c.Borrow("C06-R11", runC07, func(o an.Obligation) bool {
+		return o.Rule == "C07-R4" && strings.Contains(o.Key, "writeUpstreamResponse")
+	})
 	c.Inf("C06-R12", "shared-configuration sweep", token.NoPos, "%d stores into shared server-group / profile data found on the request path (each is reported)",
 		sharedConfigImmutable(c, "C06-R12", "dnssvc", "ecscache.", "dnsmsg."))
 	// ---- R10: the simple cache stores a copy of the response, not the message that is disposed of after the write (shared with C07-R4)
@@ -1282,4 +1289,140 @@ func c06ReturnedAlias(c *an.Ctx, rule string) {
 			}
 		}
 	}
+}
+
+// c06PrefixedIsPacked: dns.Msg.PackBuffer packs into the buffer it is given only
+// when the buffer is at least as long as the uncompressed estimate; otherwise
+// it returns a new array, also when the compressed result would have fitted.
+// What packWithPrefix hands to the stream writers must therefore be built from
+// PackBuffer's result, not from the buffer that was passed in: every return of
+// a non-nil slice is dominated by a copy whose source is the PackBuffer result
+// and whose destination is (a slice of) the returned value.
+func c06PrefixedIsPacked(c *an.Ctx, rule string) {
+	k := "dnsserver.packWithPrefix"
+	fn := c.Prog.Fn(k)
+	key := k + " returns the packed bytes behind the prefix"
+	if fn == nil {
+		c.Und(rule, key, token.NoPos, "anchor not found")
+		return
+	}
+	c.Analysed(k)
+	var pack *ssa.Call
+	for _, call := range an.Calls(fn) {
+		if cl, ok := call.(*ssa.Call); ok && an.CalleeName(call) == "(*github.com/miekg/dns.Msg).PackBuffer" {
+			pack = cl
+		}
+	}
+	if pack == nil {
+		c.Und(rule, key, fn.Pos(), "no PackBuffer call")
+		return
+	}
+	fromPack := func(v ssa.Value) bool {
+		ok := false
+		w := &an.Walker{P: c.Prog, NoFieldJoin: true,
+			Visit: func(x ssa.Value) bool {
+				if ex, isEx := x.(*ssa.Extract); isEx && ex.Tuple == ssa.Value(pack) && ex.Index == 0 {
+					ok = true
+					return true
+				}
+				return false
+			},
+			Leaf: func(ssa.Value, string) {},
+		}
+		w.Walk(v)
+		return ok
+	}
+	// base of a slice expression chain
+	base := func(v ssa.Value) ssa.Value {
+		for {
+			if sl, ok := v.(*ssa.Slice); ok {
+				v = sl.X
+				continue
+			}
+			return v
+		}
+	}
+	bad := ""
+	nret := 0
+	for _, r := range an.Returns(fn) {
+		if len(r.Results) != 2 || an.IsNilConst(r.Results[0]) {
+			continue
+		}
+		// follow phis of the returned slice: each incoming value needs its own copy
+		var vals []ssa.Value
+		var expand func(v ssa.Value, d int)
+		expand = func(v ssa.Value, d int) {
+			if ph, ok := v.(*ssa.Phi); ok && d < 4 {
+				for _, e := range ph.Edges {
+					expand(e, d+1)
+				}
+				return
+			}
+			vals = append(vals, v)
+		}
+		expand(r.Results[0], 0)
+		for _, v := range vals {
+			if an.IsNilConst(v) {
+				continue
+			}
+			nret++
+			copied := false
+			for _, call := range an.Calls(fn) {
+				b, ok := call.Common().Value.(*ssa.Builtin)
+				if !ok || b.Name() != "copy" || len(call.Common().Args) != 2 {
+					continue
+				}
+				if base(call.Common().Args[0]) == base(v) && fromPack(call.Common().Args[1]) {
+					copied = true
+				}
+			}
+			if !copied {
+				bad = "the slice returned at " + c.Pos(r.Pos()) + " (" + v.String() + ") never receives a copy of PackBuffer's result"
+			}
+		}
+	}
+	if nret == 0 {
+		c.Und(rule, key, fn.Pos(), "no non-nil result found")
+		return
+	}
+	c.Check(bad == "", rule, key, pack.Pos(), fmt.Sprintf("%d returned value(s), each filled from PackBuffer's result", nret),
+		bad+": when PackBuffer allocates (it sizes by the uncompressed estimate), the caller's buffer still holds the previous message, and that is what goes out behind the new length prefix")
+}
+
+// c06SeparatePools: readTCPMsg shrinks the pooled request slice to the announced
+// length and grows it again on its next use; the UDP path reads into the slice
+// as it comes from the pool.  With one pool for both, a UDP datagram read into
+// a slice last used for a short TCP message is cut to that length.  The values
+// stored into ServerDNS.udpPool and ServerDNS.tcpPool are results of different
+// constructor calls.
+func c06SeparatePools(c *an.Ctx, rule string) {
+	key := "dnsserver.ServerDNS: udpPool and tcpPool are different pools"
+	u := c.Prog.FieldStores("dnsserver.ServerDNS", "udpPool")
+	t := c.Prog.FieldStores("dnsserver.ServerDNS", "tcpPool")
+	var us, ts []an.FieldStore
+	for _, x := range u {
+		if !c.IsTestFile(x.Store.Parent().Pos()) {
+			us = append(us, x)
+		}
+	}
+	for _, x := range t {
+		if !c.IsTestFile(x.Store.Parent().Pos()) {
+			ts = append(ts, x)
+		}
+	}
+	if len(us) == 0 || len(ts) == 0 {
+		c.Und(rule, key, token.NoPos, "stores into ServerDNS.udpPool / tcpPool not found")
+		return
+	}
+	same := ""
+	for _, a := range us {
+		c.Analysed(an.FnKey(a.Store.Parent()))
+		for _, b := range ts {
+			if a.Store.Val == b.Store.Val {
+				same = c.Pos(a.Store.Pos())
+			}
+		}
+	}
+	c.Check(same == "", rule, key, us[0].Store.Pos(), "the two fields get the results of different constructor calls",
+		"one pool is stored into both fields at "+same+": a request slice that the TCP path shrank to a short message is handed to the UDP path, which reads the next datagram into it and loses the rest")
 }
